@@ -1186,7 +1186,13 @@ class FilesystemAuthenticatedOnionService(object):
             # released?!
             uploaded[0] = _await_descriptor_upload(config.tor_protocol, fhs, progress, await_all_uploads)
 
-        yield config.save()
+        try:
+            yield config.save()
+        except Exception:
+            # no service, so no uploads to wait for: stop listening
+            uploaded[0].addErrback(lambda f: f.trap(defer.CancelledError))
+            uploaded[0].cancel()
+            raise
         yield uploaded[0]
         return fhs
 
